@@ -104,6 +104,7 @@ Hypothesis savepoint_pushes : forall n t, sq_save E n t = ref_save n t.
 Hypothesis rollback_to_exact : forall n t, sq_rbto E n t = ref_rbto n t.
 Hypothesis tx_end_releases : forall l, bal false l = true -> pool E l = (0, 0).
 Variable C : cfg.
+Hypothesis savepoints : c_nosp C = false.
 Variable fault : nat -> bool.
 
 (* connection back in the pool, no transaction open — whatever the program, the outcomes, the
@@ -129,8 +130,8 @@ Proof.
   intros b h s r o h1 s1 t stk Hn Hsc H Htx Hg Hrb Hdr.
   assert (HBS : body_spec C (run_body E C fault b)).
   { intros hc sc rc lc hc' sc' tc basec Eb Htc Hgc Hrc Hdc.
-    apply (body_inv E savepoint_pushes rollback_to_exact C fault b [] hc sc rc lc hc' sc' tc [] basec Eb Htc (sub_nil _) Hsc Hgc Hrc Hdc). }
-  destruct (nested_step E savepoint_pushes rollback_to_exact C fault _ HBS (run_body_flags E C fault b)
+    apply (body_inv E savepoint_pushes rollback_to_exact C savepoints fault b [] hc sc rc lc hc' sc' tc [] basec Eb Htc (sub_nil _) Hsc Hgc Hrc Hdc). }
+  destruct (nested_step E savepoint_pushes rollback_to_exact C savepoints fault _ HBS (run_body_flags E C fault b)
               h s r o h1 s1 t [] stk H Htx Hg Hrb Hdr)
     as [Eh [[t1 [local1 [l0 [Eo' [St _]]]]] | [e [_ [Eo' St]]]]]; (split; [exact Eh|]); intro Hr.
   - destruct St as (A1 & A2 & _).
@@ -153,7 +154,8 @@ Proof.
   intros manual p extra o x s H Hsc Hrb Hdr.
   unfold spec_holds; cbn [o_in_use o_open_tx o_top o_ops o_table c_cfg].
   rewrite (released _ _ _ _ _ _ _ H). cbn [fst snd Z.eqb andb].
-  destruct (top_spec E savepoint_pushes rollback_to_exact C fault _ _ _ _ _ _ _ H Hsc Hrb Hdr) as [Hat [Ht Hu]].
+  destruct (top_spec E savepoint_pushes rollback_to_exact C savepoints fault _ _ _ _ _ _ _ H Hsc Hrb Hdr) as [Hat [Ht Hu]].
+  unfold usable_cfg. rewrite savepoints.
   rewrite <- Hat, same_set_refl, Ht, Hu. apply orb_true_r.
 Qed.
 End Whole.
@@ -178,8 +180,8 @@ Proof.
 Qed.
 
 (* ------------------------------------------------------------------ witnesses *)
-Definition cfg_default := mk_cfg false false false true.
-Definition cfg_stock := mk_cfg false false false false.
+Definition cfg_default := mk_cfg false false false true false.
+Definition cfg_stock := mk_cfg false false false false false.
 (* tx.Create(1); tx.Transaction(create 2) with its error ignored; tx.Create(3); return nil *)
 Definition sticky_prog := Write 1 true (Child (Write 2 true (Done RetNil)) false false (Write 3 false (Done RetNil))).
 (* the same with a nested block that fails *)
